@@ -208,6 +208,31 @@ def check_case(ctx, case, rng):
             judge(ctx, case, cfgd, cfg, cs, inp, rng, modeled)
 
 
+def top_level_union(rng):
+    """A union as the type that is called directly (its call forms go through UnionMetaType.__call__): static ones
+    with members of different extents (struct members with padding or unnamed bits, arrays, scalars), and dynamic
+    ones (a NUL-terminated or counted member)."""
+    from ..gen import F, L_NULL, L_expr, N_array, N_char, N_int, N_struct
+    from . import c11
+
+    if rng.random() < 0.25:
+        members = [F("name", N_array(rng.choice([N_char(), N_int("uint16")]), L_NULL)),
+                   F("magic", N_int(rng.choice(["uint32", "uint16", "uint64"])))]
+        if rng.random() < 0.5:
+            members.reverse()
+        if rng.random() < 0.4:
+            members.append(F("pair", N_struct([F("n", N_int("uint8"), len_src=True),
+                                               F("d", N_array(N_int("uint8"), L_expr("n & 3")))])))
+        top = N_struct(members, name="T", union=True, decl="top")
+        case = gen.finish_case([{"d": "struct", "node": top}], top, {}, ["union", "dynamic-union"])
+        case["named"] = {}
+        return case
+    while True:
+        case, upath = c11.make_union_case(rng)
+        if not upath:
+            return case
+
+
 def direct_types(ctx, rng, n):
     """Non-structure types parsed directly: scalars, enums, arrays, pointers, unions, at arbitrary offsets, through
     BytesIO, real file objects (buffered and unbuffered) and buffers."""
@@ -338,7 +363,11 @@ def run(ctx):
         if ctx.out_of_time():
             break
         rng = ctx.rng("case", i)
-        case = engine.make_case(rng, **gen_opts(rng, ctx.thorough))
+        if i % 5 == 4:
+            case = top_level_union(rng)
+            ctx.cell("top-level-union:" + ("dynamic" if gen.has_dynamic_union(case["top"]) else "static"))
+        else:
+            case = engine.make_case(rng, **gen_opts(rng, ctx.thorough))
         for t in case["feats"]:
             ctx.cell("feat:" + t)
         check_case(ctx, case, rng)
